@@ -52,6 +52,10 @@ def matrix_cases(tier):
                     if delay == 'matrix_discrete' and not vec:
                         continue
                     out.append({'kind': 'run', 'backend': backend, 'solver': solver, 'vectorize': vec, 'delay': delay})
+        # spellings that are not in any supported list (the lists are lower-case)
+        for solver in ('Euler', 'HEUN', 'Scipy', 'Diffrax', 'euler '):
+            for vec in ((False,) if backend == 'fortran' else (False, True)):
+                out.append({'kind': 'run', 'backend': backend, 'solver': solver, 'vectorize': vec, 'delay': 'none'})
         for vec in (False, True):
             for delay in ('none', 'discrete', 'past') + (('matrix_discrete',) if vec else ()):
                 out.append({'kind': 'grf', 'backend': backend, 'solver': 'euler', 'vectorize': vec, 'delay': delay})
@@ -59,7 +63,7 @@ def matrix_cases(tier):
                 out.append({'kind': 'jac', 'backend': backend, 'solver': 'euler', 'vectorize': vec, 'delay': 'none', 'sparse': sparse})
     if tier == 'quick':
         # the Fortran part of the matrix costs one f2py build per supported cell: keep a slice
-        out = [c for c in out if c['backend'] != 'fortran' or c['vectorize'] or c['solver'] in ('rk4', 'diffrax')
+        out = [c for c in out if c['backend'] != 'fortran' or c['vectorize'] or c['solver'] in ('rk4', 'diffrax', 'Euler', 'Scipy')
                or (c['delay'] == 'none' and c['solver'] == 'euler' and c['kind'] == 'run')]
     return out
 
@@ -102,7 +106,7 @@ def cases(tier, seed):
 
 
 def describe(tier, seed):
-    return {'rule': 'support matrix backend{default,torch,jax,fortran} x solver{euler,heun,scipy,diffrax,rk4} x vectorize x delay '
+    return {'rule': 'support matrix backend{default,torch,jax,fortran} x solver{euler,heun,scipy,diffrax,rk4; other spellings Euler/HEUN/Scipy/Diffrax/euler+blank} x vectorize x delay '
                     'kind{none,discrete,gamma,past()} through run, plus get_run_func and get_jacobian_func(sparse on/off): every '
                     'cell that the documented support table excludes must raise before a function/result is returned (a cell '
                     'that returns numbers is tolerated only if they equal the default backend\'s); single-fault mutants of a '
